@@ -3,7 +3,9 @@ interposer (interpose/crashpoint.c).  Level: fault_enumeration."""
 import concurrent.futures as cf, json, os, random, re, shutil, subprocess
 import core
 
-WORKLOADS = [('plain-minstd', 4), ('plain-mt19937', 3), ('vegas-dist', 3), ('mc-40', 3)]
+WORKLOADS = [('plain-minstd', 4), ('plain-mt19937', 3), ('vegas-dist', 3), ('mc-40', 3), ('mpi-plain', 3)]
+# checkpoint file names: one ending in the suffix the library uses for its temporary file, one without extension, one with two dots
+FILENAME = {'plain-minstd': 'chk.tmp', 'plain-mt19937': 'chkpt', 'vegas-dist': 'chk.txt', 'mc-40': 'chk.v2.dat', 'mpi-plain': 'mpi.chk'}
 
 
 def _sh(argv, env=None, timeout=300, cwd=None):
@@ -28,7 +30,7 @@ def run(c):
     if rc != 0:
         raise core.Inconclusive('interposer build failed: ' + err[-2000:])
     app = os.path.join(c.bdir, 'c18_app')
-    c.build_all([dict(src='c18_app.cpp', out=app, build='plain1')])
+    c.build_all([dict(src='c18_app.cpp', out=app, build='plain1', extra_inc=[os.path.join(core.VERIF, 'shim')], libs=['-pthread'])])
     rnd = random.Random(c.seed)
     plans = []       # (workload, iters, event dict, phase, prefix, refs, final)
     info = {}
@@ -37,7 +39,7 @@ def run(c):
         ck, ref = os.path.join(d, 'ck'), os.path.join(d, 'ref')
         os.makedirs(ck); os.makedirs(ref)
         env = dict(os.environ, LD_PRELOAD=so, VF_CP_DIR=ck + '/', VF_CP_LOG=os.path.join(d, 'rec.log'))
-        rc, out, err = _sh([app, wl, os.path.join(ck, 'chk.txt'), ref, str(iters)], env=env)
+        rc, out, err = _sh([app, wl, os.path.join(ck, FILENAME[wl]), ref, str(iters)], env=env)
         if rc != 0:
             c.inconclusive.append('record run of %s failed rc=%s %s' % (wl, rc, err[-500:]))
             continue
@@ -52,7 +54,7 @@ def run(c):
         for k in range(1, iters + 1):
             refs[k] = _read(os.path.join(ref, 'ref.%d' % k))
         final = _read(os.path.join(ref, 'final'))
-        endfile = _read(os.path.join(ck, 'chk.txt'))
+        endfile = _read(os.path.join(ck, FILENAME[wl]))
         if final is None or endfile != final or any(refs[k] is None for k in range(1, iters + 1)):
             c.add_violation('record-run:file-after-clean-run-is-not-the-final-checkpoint:' + wl, dict(program='c18_app', case=None, detail={'workload': wl}))
             continue
@@ -94,6 +96,8 @@ def run(c):
         ck, ref = os.path.join(d, 'ck'), os.path.join(d, 'ref')
         os.makedirs(ck); os.makedirs(ref)
         env = dict(os.environ, LD_PRELOAD=so, VF_CP_DIR=ck + '/')
+        if wl.startswith('mpi'):
+            env['VF_CP_JITTER'] = str(c.seed * 100003 + i)       # rank threads get out of step at their file-system events
         if phase == 'before':
             env['VF_CP_KILL_BEFORE'] = str(e['n'])
         elif phase == 'after':
@@ -104,7 +108,7 @@ def run(c):
             env['VF_CP_FAIL'] = '%d:%d' % (e['n'], k)
             env['VF_CP_KILL_AT_MARK'] = str(e['iteration'] + 1)
             env['VF_CP_LOG'] = os.path.join(d, 'fail.log')
-        f = os.path.join(ck, 'chk.txt')
+        f = os.path.join(ck, FILENAME[wl])
         rc, out, err = _sh([app, wl, f, '-', str(iters)], env=env)
         res = dict(workload=wl, event=e['n'], event_name=e['name'], iteration=e['iteration'], phase=phase, prefix=k, rc=rc)
         if phase == 'fail':
@@ -195,7 +199,7 @@ def _strace_crosscheck(c, app, so, info):
         d = os.path.join(c.bdir, 'st.' + wl)
         ck = os.path.join(d, 'ck'); os.makedirs(ck)
         tr = os.path.join(d, 'trace')
-        rc, out, err = _sh(['strace', '-f', '-e', 'trace=openat,write,writev,rename,renameat,renameat2', '-o', tr, app, wl, os.path.join(ck, 'chk.txt'), '-', str(iters)])
+        rc, out, err = _sh(['strace', '-f', '-e', 'trace=openat,write,writev,rename,renameat,renameat2', '-o', tr, app, wl, os.path.join(ck, FILENAME[wl]), '-', str(iters)])
         if rc != 0 or not os.path.exists(tr):
             c.inconclusive.append('strace cross-check could not run for %s' % wl)
             continue
